@@ -966,7 +966,10 @@ void XdlEncoder::new_string(const char* x)
 		case '\f':
 			_out << "\\f"; break;
 		default:
-			_out << c;
+			if ((byte)c < 0x20) // the other control characters must be escaped too
+				_out << String::f("\\u%04x", (int)c);
+			else
+				_out << c;
 		}
 	}
 	_out << '\"';
